@@ -416,6 +416,8 @@ def rule_region_mask(ck):
     c01.rule_mask_polarity(ck)
     c01.rule_raw_coordinates(ck)
     c01.rule_single_edge(ck)
+    c01.rule_observer_kernel(ck)
+    c01.rule_given_region(ck)
 
 
 RULES = [rule_operators, rule_narrowing, rule_datetime, rule_effects, rule_spatial, rule_region_interface, rule_load, rule_paths, rule_every_path_selects, rule_region_mask]
